@@ -9,6 +9,8 @@ Kani unit header:
     //@ target: <path of the /repo source file the module is appended to>
     //@ assume: <an assumption every obligation of this unit rests on>      (repeatable)
     //@ attr: anchor=`<exact source line fragment>` insert=`<attribute text>` (repeatable)
+    //@ inject-above: <exact source line fragment>   place the `mod` line above that line (inside an inline module)
+    //@ modpath: <module path of the enclosing inline module>                (required with inject-above)
 Per obligation (directly above the harness):
     //@ obl: id=<id> harness=<fn name> props=C12,C05 tier=quick|thorough kind=proof|bounded [finding=<key>]
     //@ bound: <what is bounded / why complete>
@@ -55,6 +57,8 @@ class Unit:
 
     def module_path(self):
         """Rust module path of the injected child module (kani)."""
+        if self.meta.get("modpath"):
+            return self.meta["modpath"][0] + "::__verif_" + self.name
         t = self.target
         assert t.startswith("src/") and t.endswith(".rs")
         parts = t[4:-3].split("/")
